@@ -260,7 +260,7 @@ impl Runner {
         o.insert("e".into(), json!("Block"));
         o.insert("h".into(), json!(height));
         self.emit(ev);
-        let cb = format!("c{}", b.id);
+        let cb = format!("c{}", b.dup.as_ref().unwrap_or(&b.id));
         for (i, o) in b.cb.iter().enumerate() {
           self.note_out(format!("{cb}:{i}"), o);
         }
@@ -280,8 +280,7 @@ impl Runner {
           let b = BlockSpec {
             id: format!("{prefix}{i}"),
             txs: Vec::new(),
-            cb: vec![OutSpec { v: SUBSIDY_UNITS, t: "tr".into(), s: (i % 4) as u32 }],
-          };
+            cb: vec![OutSpec { v: SUBSIDY_UNITS, t: "tr".into(), s: (i % 4) as u32 }], ..Default::default() };
           self.node.push_block(&b);
           if i + keep >= *n {
             let label = format!("c{prefix}{i}:0");
